@@ -2088,9 +2088,15 @@ int mc_main(int argc, char **argv, const char *part, const std::vector<McScenari
           remainingW += s2.weight;
       }
     }
-    double budget = (deadlineS - (scStart - tStart)) * sc.weight / (remainingW > 0 ? remainingW : 1);
+    double remainingT = deadlineS - (scStart - tStart);
+    double budget = remainingT * sc.weight / (remainingW > 0 ? remainingW : 1);
     if (budget < 5)
       budget = 5;
+    // most scenarios need far less than their share, a few need more: let one scenario overdraw up to three shares
+    // (never more than a fifth of what is left), the unused time of the cheap ones pays for it
+    double over = budget * 3 < remainingT * 0.2 ? budget * 3 : remainingT * 0.2;
+    if (over > budget)
+      budget = over;
     double deadlineAt = scStart + budget;
 
     std::vector<Prefix> layer;
